@@ -94,6 +94,7 @@ Pred(fam, fn, p, x) ==
     [] fam = "any" /\ fn = "non_empty" -> Len(x) > 0                         \* |v| !v.is_empty()
     [] fam = "any" /\ fn = "sorted"    -> \A i \in 1..(Len(x) - 1) : x[i] <= x[i + 1]
     [] fam = "any" /\ fn = "short"     -> Len(x) <= 2
+    [] fam = "any" /\ fn = "len_le"    -> Len(x) <= p[1]                     \* |v| v.len() <= T::CAP  (depends on the instantiation)
     [] OTHER -> Assert(FALSE, <<"unknown predicate catalogue entry", fam, fn>>)
 
 \* custom validation `with = f, error = E`: "" when valid, else the error
